@@ -1,4 +1,5 @@
 """Rules shared by several properties."""
+import os
 from sa.model import AnalysisError, norm
 from sa.interp import Interp
 from sa.values import Unk, concrete, is_concrete
@@ -143,6 +144,67 @@ def encoded_piecewise(evs, content):
 
 
 _IMPORT_CACHE = {}
+_SA_DIGEST = [None]
+
+
+def _cache_path(P, pid, tier):
+    """Opt-in (VERIF_IMPORT_CACHE=<dir>) cache of an owner property's result for one exact program: the key covers the
+    analysed package sources, the specification and setup.py, and the sources of the analysis itself.  Used by the
+    sensitivity audit, where all 20 checks meet the same patched tree; never enabled by the registered commands."""
+    d = os.environ.get('VERIF_IMPORT_CACHE')
+    if not d:
+        return None
+    import hashlib
+    if _SA_DIGEST[0] is None:
+        h = hashlib.sha256()
+        here = os.path.dirname(os.path.dirname(os.path.abspath(__file__)))
+        for root, dirs, files in os.walk(here):
+            dirs[:] = sorted(x for x in dirs if x != '__pycache__')
+            for f in sorted(files):
+                if f.endswith('.py'):
+                    h.update(open(os.path.join(root, f), 'rb').read())
+        kf = os.path.join(os.path.dirname(here), 'known_findings.jsonl')
+        if os.path.exists(kf):
+            h.update(open(kf, 'rb').read())
+        _SA_DIGEST[0] = h.hexdigest()
+    h = hashlib.sha256((pid + tier + str(getattr(P, 'digest', '')) + _SA_DIGEST[0]).encode())
+    for extra in (os.path.join(P.repo, 'docs', 'spec'), os.path.join(P.repo, 'python', 'setup.py')):
+        if os.path.isdir(extra):
+            for f in sorted(os.listdir(extra)):
+                fp = os.path.join(extra, f)
+                if os.path.isfile(fp):
+                    h.update(f.encode() + open(fp, 'rb').read())
+        elif os.path.isfile(extra):
+            h.update(open(extra, 'rb').read())
+    return os.path.join(d, '%s-%s.json' % (pid, h.hexdigest()[:32]))
+
+
+def _disk_cache_get(P, pid, tier):
+    p = _cache_path(P, pid, tier)
+    if p and os.path.exists(p):
+        try:
+            import json
+            return json.load(open(p))
+        except Exception:
+            return None
+    return None
+
+
+def disk_cache_put(P, pid, tier, rep, err):
+    p = _cache_path(P, pid, tier)
+    if not p:
+        return
+    import json
+    try:
+        os.makedirs(os.path.dirname(p), exist_ok=True)
+        tmp = p + '.%d.tmp' % os.getpid()
+        with open(tmp, 'w') as fh:
+            json.dump({'violations': [{k: (v if isinstance(v, (str, int, float, bool, type(None), list)) else str(v)) for k, v in x.items()}
+                                      for x in rep.violations],
+                       'rules': rep.rules, 'order': rep.order, 'err': err}, fh, default=str)
+        os.replace(tmp, p)
+    except Exception:
+        pass
 
 
 def imported_rules(P, rep, rid, tier, pid, consequence, only=None):
@@ -156,6 +218,14 @@ def imported_rules(P, rep, rid, tier, pid, consequence, only=None):
     from sa.report import Report, load_known
     key = (pid, tier, getattr(P, 'digest', None))
     if key not in _IMPORT_CACHE:
+        cached = _disk_cache_get(P, pid, tier)
+        if cached is not None:
+            sub = Report(pid, tier, P)
+            sub.violations = cached['violations']
+            sub.rules = cached['rules']
+            sub.order = cached['order']
+            _IMPORT_CACHE[key] = (sub, cached['err'])
+    if key not in _IMPORT_CACHE:
         mod = importlib.import_module('sa.props.%s' % pid.lower())
         sub = Report(pid, tier, P)
         err = None
@@ -164,6 +234,7 @@ def imported_rules(P, rep, rid, tier, pid, consequence, only=None):
         except AnalysisError as e:
             err = str(e)
         _IMPORT_CACHE[key] = (sub, err)
+        disk_cache_put(P, pid, tier, sub, err)
     sub, err = _IMPORT_CACHE[key]
     known = {k['key'] for k in load_known() if k.get('property') == pid and k.get('kind') == 'finding'}
     viol = [v for v in sub.violations if v['key'] not in known and (only is None or v['rule'] in only)]
